@@ -39,6 +39,9 @@ def micro_cases(ctx):
                 for index in range(n):
                     for k in (-1, 0, 1):
                         cases.append('noderemove N %d %d %d' % (n, k, index))
+        for n in range(1, 4):                      # real BucketLimP4::AddCrt into a block with a free slot
+            for k in (-1, 0, 1):
+                cases.append('bucketadd %s %d %d' % (c, n, k))
         for k in range(-1, 5):
             cases.append('copyexec %s 1 %d' % (c, k))
             cases.append('moveexec %s 1 %d' % (c, k))
@@ -59,7 +62,7 @@ def oracle_cases(ctx, scale):
     per = 5 * scale if ctx.quick() else 24
     for part, cfgs in PARTS.items():
         for cfg in cfgs:
-            cats = 'NCT'
+            cats = 'NCTXY' if cfg in ('hmap_limp4', 'hmap_open8', 'hmmap', 'tmap_n4', 'tmap_n32') else 'NCT'
             for c in cats:
                 for i in range(per):
                     nops = NOPS[cfg] if i % 3 else max(6, NOPS[cfg] // 2)
